@@ -152,3 +152,12 @@ package parser
 
 // An `exec f()` is resolved against ALL function definitions of the text, wherever they are written
 // (C14: permuting top-level declarations does not change the program).
+
+// ---- C15 (parsing back what was printed): an identifier may start with the digit 1, so the unit token `1` is
+// produced only when the text does not go on with an identifier character - `1_a` and `1'` scan as labels, as the
+// general label scanner would scan them.
+//@ macro labelCharCode(c int) bool = (97 <= c && c <= 122) || (65 <= c && c <= 90) || (48 <= c && c <= 57) || c == 95 || c == 39
+//@ contract (*scanner).scanSpecialSymbol
+//@   ensures C15.unitMaximal: ch == 49 && result0 == UNIT ==> rest == "" || !labelCharCode(code(str_at(rest, 0)))
+//@ contract (*scanner).scanLabel
+//@   ensures C15.labelNotUnit: result0 != UNIT
